@@ -12,6 +12,7 @@ Extracted with `ast` only (shapes are matched strictly; anything else raises Unt
                                                                -> privatePrefix
   purge tests: `now > device.valid_to`, `now > valid_to`, `self.next_valid_to > now` (strictness of the comparisons)
                                                                -> purgeTests
+  whole source (docstrings / comments / layout apart) of every function the model transcribes by hand  -> sources
   _see_device: the order of its top-level statements (validate USN -> purge -> ...)  -> seeDeviceOrder
 """
 from __future__ import annotations
@@ -198,6 +199,35 @@ def _see_device_order(mod: ast.Module):
     return out
 
 
+# functions the tracker model transcribes by hand: their whole source (docstrings, comments and layout apart) is pinned
+PINNED_SOURCES = [
+    ("is_usable_location", None), ("extract_uncache_after", None), ("extract_valid_to", None),
+    ("same_headers_differ", None), ("location_changed", None), ("ip_version_from_location", None),
+    ("purge_locations", "SsdpDevice"), ("combined_headers", "SsdpDevice"), ("location", "SsdpDevice"),
+    ("purge_devices", "SsdpDeviceTracker"), ("_see_device", "SsdpDeviceTracker"), ("see_search", "SsdpDeviceTracker"),
+    ("see_advertisement", "SsdpDeviceTracker"), ("unsee_advertisement", "SsdpDeviceTracker"),
+    ("_on_search", "SsdpListener"), ("_on_alive", "SsdpListener"), ("_on_update", "SsdpListener"),
+    ("_on_byebye", "SsdpListener"),
+]
+
+
+def _source_of(mod: ast.Module, name: str, cls) -> str:
+    scope = mod.body
+    if cls is not None:
+        cs = [n for n in mod.body if isinstance(n, ast.ClassDef) and n.name == cls]
+        if not cs:
+            raise Untranslatable(f"class {cls} not found")
+        scope = cs[0].body
+    fns = [n for n in scope if isinstance(n, (ast.FunctionDef, ast.AsyncFunctionDef)) and n.name == name]
+    if len(fns) != 1:
+        raise Untranslatable(f"{cls or 'module'}.{name}: expected exactly one definition")
+    fn = fns[0]
+    body = [st for st in fn.body if not (isinstance(st, ast.Expr) and isinstance(st.value, ast.Constant)
+                                         and isinstance(st.value.value, str))]
+    args = ast.unparse(fn.args)
+    return f"def {name}({args}):\n" + "\n".join(ast.unparse(st) for st in body)
+
+
 @generator("C03Tracker")
 def gen(repo: Path) -> str:
     mod = parse(repo, SRC)
@@ -248,5 +278,9 @@ def gen(repo: Path) -> str:
     out += f"def byebyeBadNeedles : List String := {sl(b_needles)}\n"
     out += f"def purgeTests : List String := {sl(tests)}\n"
     out += f"def seeDeviceOrder : List String := {sl(order)}\n"
+    out += "def sources : List (String × String) := [\n"
+    out += ",\n".join(f"  ({lean_str((cls + '.' if cls else '') + name)}, {lean_str(_source_of(mod, name, cls))})"
+                       for name, cls in PINNED_SOURCES)
+    out += "]\n"
     out += "\nend Upnp.Gen.C03Tracker\n"
     return out
